@@ -23,7 +23,9 @@ import Verif.Model.Validity
     sshrenew anow=<time> bd= ova=<u64> ovb=<u64> ct=  -> `ok d=<u64> vaoff=<int>` | `rej` | `crash`
     sshrekey … g= p= pnow=<time>                      -> same, after the SSHPOP validators
     (x509 / sshp lines carrying e2e=1 print only `ok …` | `rej` | `crash`; `skip …` -> `skip`)
-    acme now=<time> def= rnb=<time> rna=<time>        -> `nb=<time> na=<time>`
+    sshgate op=renew|rekey unow=<int> anow= pnow= g= p= bd= allow=0|1 ova= ovb= ct=
+                                                      -> `gate=0` | `gate=1 ` ++ renew/rekey result
+    acme now=<time> def= rnb=<time> rna=<time>        -> `nb=<time> na=<time>` | `rej:500` (order not storable)
     overflow lo=<int> hi=<int> k=<int>                 -> the k-th wrap witness (seconds) for [lo,hi], see below
 -/
 open Verif Verif.Validity
@@ -178,10 +180,24 @@ def eval (line : String) : Option String := do
                let cl ← claimer? kv
                pure (sshRekey cl anow (← time? (← get "pnow")) bd old))
     pure (e2eS (fun c => s!"d={(c.vb - c.va).toNat} vaoff={(c.va.toNat : Int) - unixOf (anow - bd)}") r)
+  | "sshgate" =>
+    let unow ← int? (← get "unow")
+    let anow ← time? (← get "anow")
+    let bd ← int? (← get "bd")
+    let allow := (get "allow") = some "1"
+    let old : SshCert := ⟨(← u64? (← get "ova")), (← u64? (← get "ovb")), (← (← get "ct").toNat?)⟩
+    if !renewGate unow allow old then pure "gate=0"
+    else
+      let r ← (if (get "op") = some "renew" then pure (sshRenewDates anow bd old)
+               else do
+                 let cl ← claimer? kv
+                 pure (sshRekey cl anow (← time? (← get "pnow")) bd old))
+      pure ("gate=1 " ++ e2eS (fun c => s!"d={(c.vb - c.va).toNat} vaoff={(c.va.toNat : Int) - unixOf (anow - bd)}") r)
   | "acme" =>
     let now ← time? (← get "now")
-    let o := acmeOrderDates now (← int? (← get "def")) (← time? (← get "rnb")) (← time? (← get "rna"))
-    pure s!"nb={timeS o.nb} na={timeS o.na}"
+    match acmeNewOrder now (← int? (← get "def")) (← time? (← get "rnb")) (← time? (← get "rna")) with
+    | .ok o => pure s!"nb={timeS o.nb} na={timeS o.na}"
+    | _ => pure "rej:500"
   | "overflow" =>
     match overflowWitness (← int? (← get "lo")) (← int? (← get "hi")) (← (← get "k").toNat?) with
     | some s => pure s!"s={s}"
